@@ -1,0 +1,26 @@
+//go:build verif
+
+package cert
+
+import (
+	"slices"
+
+	"github.com/relab/hotstuff"
+)
+
+// verifOrderQCs rebuilds the list that VerifyAggregateQC filled by ranging over a map: the same
+// entries (including the leading zero values the original list starts with), the QCs in the order
+// of their signers' IDs instead of Go's randomised map order. Among QCs of equal view the order
+// decides which one is verified first, and hence which blocks are fetched.
+func verifOrderQCs(m map[hotstuff.ID]hotstuff.QuorumCert, qcs []hotstuff.QuorumCert) []hotstuff.QuorumCert {
+	ids := make([]hotstuff.ID, 0, len(m))
+	for id := range m {
+		ids = append(ids, id)
+	}
+	slices.Sort(ids)
+	out := make([]hotstuff.QuorumCert, len(qcs)-len(m), len(qcs))
+	for _, id := range ids {
+		out = append(out, m[id])
+	}
+	return out
+}
